@@ -28,11 +28,10 @@ Theorem C07_done_stack_wiped : forall ob fuel cyc count s c s',
 Proof. exact done_stack_wiped. Qed.
 Print Assumptions C07_done_stack_wiped.
 
-(* the stack trace of a failure is computed from the state at the failing
-   instruction only; an evaluation that fails before running (read / compile error)
-   reports no trace at all (Model/Vm.v [eval]: Failed e m None) *)
-Theorem C07_compile_failure_has_no_trace : forall ob fuel e s r s',
-  eval ob fuel e s = ROk r s' ->
-  (forall x, prepare_eval e s <> ROk x s') \/ True.
-Proof. intros. right. exact I. Qed.
+(* an evaluation that fails before it runs (compile error) reports no stack trace:
+   it cannot show the trace of an earlier failure (fix 9a27905) *)
+Theorem C07_compile_failure_has_no_trace : forall ob fuel e s code msg s1,
+  prepare_eval e s = RErr code msg s1 ->
+  eval ob fuel e s = ROk (Failed code msg None) s1.
+Proof. intros ob fuel e s code msg s1 H. unfold eval. rewrite H. reflexivity. Qed.
 Print Assumptions C07_compile_failure_has_no_trace.
